@@ -432,7 +432,7 @@ def is_pure(rho):
     :return: True if rho is pure; False if rho is mixed
     :rtype: bool
     """
-    return np.allclose(np.real(np.trace(rho @ rho)), 1.0)
+    return np.allclose(np.real(np.trace(rho @ rho)), 1.0, rtol=0.0, atol=1e-10)
 
 
 def create_n_product_state(n_qubits, qubit_state):
